@@ -14,7 +14,7 @@ RULE = ("Stated grid n_word in {64,65,66,72,96,127,128,129,200,256} x n_frac in 
         "~,&,|,^ equal the two's-complement oracle; 1-d arrays (lists and object arrays, homogeneous and mixed magnitude) element-wise; extended_prec indicator == (n_word>=64) for n_word 1..70 and the grid. "
         "Non-trivial = code with >=54 significant bits (a float round trip would destroy it) or out of range; distinct = distinct case keys.")
 ASSUMPTIONS = ['integer and string inputs only (float inputs into >=64-bit words are outside the statement)', 'the inaccuracy flag is not asserted for wide words']
-EXHAUSTIVE = True
+EXHAUSTIVE = False    # the whole quantifier is not enumerated; complete sub-domains are listed in EXHAUSTIVE_SUBDOMAINS
 EXHAUSTIVE_SUBDOMAINS = {'quick': ['the full stated (n_word, n_frac, signed, overflow) grid x all boundary/modulus/2^63/2^64 codes x 4 routes', 'extended_prec for n_word 1..70'],
                          'thorough': ['same grid + 40 random codes per cell']}
 REQUIRED_CLASSES = {'>=54-sig-bits': 2000, 'out-of-range': 2000, 'array': 500, 'array-mixed': 200, 'string': 500, 'bitwise': 500}
